@@ -382,6 +382,10 @@ class Lib:
         if hk0:
             return hk0(ex, st, base, idx, v, s)
         if o.kind == 'matrix':
+            hkw = self.hooks.get('matrix_setitem')
+            if hkw:
+                # contract hook: element stores can carry an obligation
+                hkw(ex, st, base, idx, v, s)
             self.on_mutate(ex, st, base, 'indexed assignment', s)
             o.f['sym'] = z3.IntVal(0)
             full = isinstance(idx, tuple) and idx and idx[0] == 'slice' \
